@@ -45,6 +45,9 @@ func main() {
 		if t := os.Getenv("VERIF_TIER"); t != "" && *tier == "" {
 			*tier = t
 		}
+		if v := os.Getenv("VERIF_BUDGET"); v != "" && *budget == 0 {
+			fmt.Sscan(v, budget)
+		}
 		if *budget == 0 {
 			*budget = 70
 			if *tier == "thorough" {
